@@ -209,7 +209,8 @@ def gen_big(seed, idx):
             if l > 195 and rng.random() < 0.15:
                 v = rng.choice(released[-20:])
                 released.remove(v)
-                steps.append({"op": "lock", "conn": 2, "key": 1, "lid": v, "to": 0, "ex": rng.choice([5, 200]), "cnt": cnt})   # LockId reused: a new hold
+                # LockId reused: a new hold - admissible only if the request's own Count allows the outstanding holds
+                steps.append({"op": "lock", "conn": 2, "key": 1, "lid": v, "to": 0, "ex": rng.choice([5, 200]), "cnt": rng.choice([cnt, cnt, 3, 0])})
         steps.append({"op": "tick", "n": 8})
     else:              # semaphore with waiters of mixed Count: wake passes that admit several at once
         c = rng.choice([2, 3, 5])
